@@ -5,6 +5,7 @@ import (
 	"fmt"
 	"reflect"
 	"runtime"
+	"sort"
 	"strconv"
 	"strings"
 	"sync"
@@ -84,7 +85,10 @@ func (s *sched) yield(point string, key interface{}) {
 	s.parked[tid] = ch
 	s.where[tid] = schedEvent{tid, point, s.nameKey(key), key}
 	s.mu.Unlock()
-	s.arrive <- tid
+	select { // a wake-up for the scheduler; it re-reads the parked set (and polls) anyway
+	case s.arrive <- tid:
+	default:
+	}
 	<-ch
 }
 
@@ -133,26 +137,49 @@ func runScheduled(workers []func() string, schedule []int) schedResult {
 		<-ready
 	}
 	// wait until every worker is parked at "start"
-	for n := 0; n < len(workers); n++ {
-		<-s.arrive
-	}
-	running := -1
 	step := 0
 	ndone := 0
-	// settle waits for the released worker to park again, finish, or block (timeout)
-	settle := func() {
-		if running < 0 {
-			return
+	// quiesce: wait until every worker is parked at a yield point, finished, or
+	// blocked on a mutex (its goroutine's wait reason says so). Only then is the
+	// next worker released, so at most one worker runs at a time and the order of
+	// releases is the order in which the instrumented accesses happen. (A worker
+	// woken by another's Unlock runs alongside it for a moment; both are waited
+	// for, and neither touches shared state before its next yield point.)
+	quiesce := func() bool {
+		deadline := time.Now().Add(20 * time.Second)
+		for {
+			s.mu.Lock()
+			var inflight []int
+			for t := 0; t < len(workers); t++ {
+				if _, ok := s.parked[t]; !ok && !s.done[t] {
+					inflight = append(inflight, t)
+				}
+			}
+			s.mu.Unlock()
+			if len(inflight) == 0 {
+				return true
+			}
+			select {
+			case <-s.arrive:
+			case id := <-finished:
+				s.mu.Lock()
+				s.done[id] = true
+				s.mu.Unlock()
+				ndone++
+			case <-time.After(2 * time.Millisecond):
+				blocked := mutexBlocked(s, inflight)
+				if blocked == len(inflight) {
+					return true
+				}
+				if time.Now().After(deadline) {
+					res.panics = append(res.panics, "hang: a released worker neither reached a yield point nor finished within 20s")
+					return false
+				}
+			}
 		}
-		select {
-		case <-s.arrive:
-		case id := <-finished:
-			s.done[id] = true
-			ndone++
-		case <-time.After(20 * time.Millisecond):
-			// blocked on a mutex held by a parked worker: leave it, schedule someone else
-		}
-		running = -1
+	}
+	if !quiesce() {
+		return res
 	}
 	for ndone < len(workers) {
 		s.mu.Lock()
@@ -164,17 +191,9 @@ func runScheduled(workers []func() string, schedule []int) schedResult {
 		}
 		s.mu.Unlock()
 		if len(cands) == 0 {
-			// everything is running or blocked: wait for an arrival or a completion
-			select {
-			case <-s.arrive:
-			case id := <-finished:
-				s.done[id] = true
-				ndone++
-			case <-time.After(2 * time.Second):
-				res.panics = append(res.panics, "deadlock: no worker can make progress")
-				return res
-			}
-			continue
+			// every unfinished worker is blocked on a mutex nobody will release
+			res.panics = append(res.panics, "deadlock: no worker can make progress")
+			return res
 		}
 		if stepInvariant != nil {
 			if msg := stepInvariant(); msg != "" {
@@ -196,11 +215,37 @@ func runScheduled(workers []func() string, schedule []int) schedResult {
 		delete(s.parked, pick)
 		res.trace = append(res.trace, s.where[pick])
 		s.mu.Unlock()
-		running = pick
 		close(ch)
-		settle()
+		if !quiesce() {
+			return res
+		}
 	}
 	return res
+}
+
+// mutexBlocked: how many of the given workers' goroutines are waiting for a mutex.
+func mutexBlocked(s *sched, tids []int) int {
+	buf := make([]byte, 1<<20)
+	n := runtime.Stack(buf, true)
+	dump := string(buf[:n])
+	s.mu.Lock()
+	defer s.mu.Unlock()
+	cnt := 0
+	for _, t := range tids {
+		for g, tid := range s.gids {
+			if tid != t {
+				continue
+			}
+			hdr := fmt.Sprintf("goroutine %d [", g)
+			if i := strings.Index(dump, hdr); i >= 0 {
+				rest := dump[i+len(hdr):]
+				if strings.HasPrefix(rest, "sync.Mutex.Lock") || strings.HasPrefix(rest, "semacquire") || strings.HasPrefix(rest, "sync.RWMutex") {
+					cnt++
+				}
+			}
+		}
+	}
+	return cnt
 }
 
 func traceString(tr []schedEvent) string {
@@ -382,33 +427,45 @@ type internHolder struct {
 // given schedule of the intern yield points. At every scheduling point the
 // published table must satisfy the model's invariant (every key maps to itself)
 // and must extend the previous one.
-func execInternSched(s *Sexp) string {
-	var reqs [][][]byte
+func parseInternReqs(s *Sexp) (reqs [][][]byte, schedule []int, ok bool) {
 	for _, th := range s.List[1].List[1:] {
 		var ds [][]byte
 		for _, it := range th.List {
 			d, err := unhx(it.Atom)
 			if err != nil {
-				return "bad-op"
+				return nil, nil, false
 			}
 			ds = append(ds, d)
 		}
 		reqs = append(reqs, ds)
 	}
-	var schedule []int
 	for _, it := range s.List[2].List {
 		n, _ := strconv.Atoi(it.Atom)
 		schedule = append(schedule, n)
 	}
+	return reqs, schedule, true
+}
+
+func execInternSched(s *Sexp) string {
+	reqs, schedule, ok := parseInternReqs(s)
+	if !ok {
+		return "bad-op"
+	}
+	out, _, _ := runInternSched(reqs, schedule)
+	return out
+}
+
+// runInternSched: result line, the recorded trace, the keys of the final table
+func runInternSched(reqs [][][]byte, schedule []int) (string, []schedEvent, []string) {
 	p := &plenc.Plenc{}
 	p.RegisterDefaultCodecs()
 	cd, err := p.CodecForType(reflect.TypeOf(internHolder{}))
 	if err != nil {
-		return "builderr"
+		return "builderr", nil, nil
 	}
 	ic, ok := cd.(*plenccodec.StructCodec).VerifFields()[0].Codec.(*plenccodec.InternedStringCodec)
 	if !ok {
-		return "bad-op not interned"
+		return "bad-op not interned", nil, nil
 	}
 	results := make([][]string, len(reqs))
 	var ws []func() string
@@ -466,8 +523,50 @@ func execInternSched(s *Sexp) string {
 	res := runScheduled(ws, schedule)
 	stepInvariant = nil
 	schedLastTrace = traceString(res.trace)
-	if len(res.panics) > 0 {
-		return "PANIC " + strings.Join(res.panics, "; ")
+	var keys []string
+	for k := range ic.VerifTable() {
+		keys = append(keys, hx([]byte(k)))
 	}
-	return strings.Join(res.results, " | ")
+	sort.Strings(keys)
+	if len(res.panics) > 0 {
+		return "PANIC " + strings.Join(res.panics, "; "), res.trace, keys
+	}
+	return strings.Join(res.results, " | "), res.trace, keys
+}
+
+// ---- C19 trace correspondence ---------------------------------------------------
+
+// makeInternTraceOp runs the schedule once and returns the op carrying the
+// recorded releases from the intern yield points.
+func makeInternTraceOp(sched *Sexp) *Sexp {
+	reqs, schedule, ok := parseInternReqs(sched)
+	if !ok {
+		return L(A("interntrace"))
+	}
+	_, trace, _ := runInternSched(reqs, schedule)
+	evs := []*Sexp{A("events")}
+	for _, e := range trace {
+		if strings.HasPrefix(e.point, "intern.") {
+			evs = append(evs, L(A(strconv.Itoa(e.tid)), A(strings.TrimPrefix(e.point, "intern."))))
+		}
+	}
+	return L(A("interntrace"), sched.List[1], sched.List[2], L(evs...))
+}
+
+// execInternTrace: (interntrace (reqs…) (schedule…) (events…)): the events are
+// the model's input; the implementation's line is what the real run under the
+// same schedule ends with: the keys of the table and every goroutine's results.
+func execInternTrace(s *Sexp) string {
+	if len(s.List) != 4 {
+		return "bad-op"
+	}
+	reqs, schedule, ok := parseInternReqs(s)
+	if !ok {
+		return "bad-op"
+	}
+	out, _, keys := runInternSched(reqs, schedule)
+	if strings.HasPrefix(out, "PANIC") || strings.HasPrefix(out, "b") {
+		return out
+	}
+	return "conforms keys=" + strings.Join(keys, ",") + " results=" + out
 }
